@@ -230,6 +230,9 @@ template<typename A>
 void hll_union_alloc<A>::union_impl(const hll_sketch_alloc<A>& sketch, uint8_t lg_max_k) {
   const HllSketchImpl<A>* src_impl = sketch.sketch_impl; //default
   HllSketchImpl<A>* dst_impl = gadget_.sketch_impl; //default
+  // a gadget built by a merge (e.g. a down-sampled first input) has stale cur_min / num_at_cur_min until this
+  // deferred recomputation runs, and would otherwise still report isEmpty() and be replaced by the next HLL input
+  if (dst_impl->getCurMode() == HLL) static_cast<HllArray<A>*>(dst_impl)->check_rebuild_kxq_cur_min();
   if (src_impl->getCurMode() == LIST || src_impl->getCurMode() == SET) {
     if (dst_impl->isEmpty() && src_impl->getLgConfigK() == dst_impl->getLgConfigK()) {
       dst_impl = src_impl->copyAs(HLL_8);
